@@ -2,6 +2,7 @@
 import SquidModel.Properties.C58
 #print axioms SquidModel.C58.get_put_roundtrip
 #print axioms SquidModel.C58.put_overflow_throws
+#print axioms SquidModel.C58.put_never_oob
 #print axioms SquidModel.C58.wrong_type_throws
 #print axioms SquidModel.C58.received_type
 #print axioms SquidModel.C58.truncated_throws
